@@ -264,12 +264,12 @@ Proof.
   destruct (nth_error (donew r) c) as [[[[s w] e] rs]|] eqn:N.
   - destruct (has_stop (cfg (st r)) rs) eqn:St; injection H as <-.
     + (* the StopEvent short-cut: the other workers are cancelled; the run ends when the tick is processed *)
-      constructor; [exact S2|]. left. exists s, w, e, rs. cbn [set_wait tbuf st]. split; [apply in_app_iff; right; left; reflexivity|exact St].
+      constructor; [exact S2|]. left. exists s, w, e, rs. cbn [log_fire set_wait tbuf st]. split; [apply in_app_iff; right; left; reflexivity|exact St].
     + eapply XInv_same; [exact X|exact S2|reflexivity| |].
-      * intros x. pose proof (nth_split_cnt x _ _ _ N) as Sp. rewrite !held_cnt. cbn [set_wait pending runningw donew tbuf map].
+      * intros x. pose proof (nth_split_cnt x _ _ _ N) as Sp. rewrite !held_cnt. cbn [log_fire set_wait pending runningw donew tbuf map].
         rewrite bufkeys_app, !map_app, !cnt_app. unfold bufkeys at 2. cbn [flat_map tick_key app].
         rewrite map_app, cnt_app in Sp. change (kd (s, w, e, rs)) with ((s, w) : Z * nat) in Sp. rewrite ?cnt_nil. lia.
-      * intros t I. cbn [set_wait tbuf]. apply in_app_iff. left. exact I.
+      * intros t I. cbn [log_fire set_wait tbuf]. apply in_app_iff. left. exact I.
   - destruct (donew r) as [|d0 dr] eqn:Ed; [|discriminate H].
     destruct (mailbox r) as [|t mb] eqn:Em.
     + destruct (due (clock r) (wakeups r)) as [d rest] eqn:Du.
@@ -277,19 +277,19 @@ Proof.
       destruct d as [|d1 dd].
       * destruct (pending r) eqn:Ep; [discriminate H|]. injection H as <-.
         eapply XInv_same; [exact X|exact S2|reflexivity| |].
-        -- intros x. rewrite !held_cnt. cbn [set_wait pending runningw donew tbuf map]. rewrite Ed, Ep, map_app, !cnt_app. cbn [map]. rewrite ?cnt_nil. lia.
+        -- intros x. rewrite !held_cnt. cbn [log_fire set_wait pending runningw donew tbuf map]. rewrite Ed, Ep, map_app, !cnt_app. cbn [map]. rewrite ?cnt_nil. lia.
         -- intros t I. exact I.
       * injection H as <-.
         eapply XInv_same; [exact X|exact S2|reflexivity| |].
-        -- intros x. rewrite !held_cnt. cbn [set_wait pending runningw donew tbuf map].
+        -- intros x. rewrite !held_cnt. cbn [log_fire set_wait pending runningw donew tbuf map].
            rewrite Ed, bufkeys_app, (bufkeys_nostep _ Nd), map_app, !cnt_app. cbn [map]. rewrite ?cnt_nil. lia.
-        -- intros t I. cbn [set_wait tbuf]. apply in_app_iff. left. exact I.
+        -- intros t I. cbn [log_fire set_wait tbuf]. apply in_app_iff. left. exact I.
     + injection H as <-. pose proof (so_mail _ (xi_slots _ X)) as M. rewrite Em in M. inversion M; subst.
       eapply XInv_same; [exact X|exact S2|reflexivity| |].
-      * intros x. rewrite !held_cnt. cbn [set_wait pending runningw donew tbuf map].
+      * intros x. rewrite !held_cnt. cbn [log_fire set_wait pending runningw donew tbuf map].
         rewrite Ed, bufkeys_app, (bufkeys_nostep [t]) by (constructor; [assumption|constructor]).
         rewrite map_app, !cnt_app. cbn [map]. rewrite ?cnt_nil. lia.
-      * intros t0 I. cbn [set_wait tbuf]. apply in_app_iff. left. exact I.
+      * intros t0 I. cbn [log_fire set_wait tbuf]. apply in_app_iff. left. exact I.
 Qed.
 
 Lemma rub_xinv P : forall f r, XInv r -> Runner.outcome (run_until_blocked P r f) = ORunning -> XInv (run_until_blocked P r f).
@@ -314,7 +314,7 @@ Proof.
     assert (Slots_ok {| st := st r; tbuf := tbuf r; wakeups := wakeups r; wseq := wseq r; idle_pending := idle_pending r;
                         mailbox := mailbox r ++ sends; pending := pending r; runningw := run'; donew := donew r ++ [(s, w, e, rs)];
                         published := published r; ticklog := ticklog r; outcome := ORunning; clock := clock r; tlog := tlog r;
-                        idlelog := idlelog r; envlog := envlog r ++ sends |}) as S2.
+                        idlelog := idlelog r; envlog := envlog r ++ sends ; firelog := firelog r |}) as S2.
     { eapply Slots_sub; [exact (xi_slots _ G)|reflexivity| | | | |]; cbn [tbuf donew mailbox wakeups].
       + intros x. rewrite !held_cnt. cbn [pending runningw donew tbuf]. rewrite map_app, cnt_app.
         rewrite (take_worker_cnt x _ _ _ _ _ Tk). cbn [map]. unfold kd at 2. unfold kp at 3. cbn [fst snd]. lia.
@@ -330,7 +330,7 @@ Proof.
   - assert (Slots_ok {| st := st r; tbuf := tbuf r; wakeups := wakeups r; wseq := wseq r; idle_pending := idle_pending r;
                         mailbox := mailbox r ++ [t]; pending := pending r; runningw := runningw r; donew := donew r;
                         published := published r; ticklog := ticklog r; outcome := ORunning; clock := clock r; tlog := tlog r;
-                        idlelog := idlelog r; envlog := envlog r ++ [t] |}) as S2.
+                        idlelog := idlelog r; envlog := envlog r ++ [t] ; firelog := firelog r |}) as S2.
     { eapply Slots_sub; [exact (xi_slots _ G)|reflexivity| | | | |]; cbn [tbuf donew mailbox wakeups].
       + intros x. rewrite !held_cnt. cbn [pending runningw donew tbuf]. lia.
       + exact (so_tbuf _ (xi_slots _ G)).
@@ -341,7 +341,7 @@ Proof.
   - assert (Slots_ok {| st := st r; tbuf := tbuf r; wakeups := wakeups r; wseq := wseq r; idle_pending := idle_pending r;
                         mailbox := mailbox r; pending := pending r; runningw := runningw r; donew := donew r;
                         published := published r; ticklog := ticklog r; outcome := ORunning; clock := clock r + dt; tlog := tlog r;
-                        idlelog := idlelog r; envlog := envlog r |}) as S2.
+                        idlelog := idlelog r; envlog := envlog r ; firelog := firelog r |}) as S2.
     { eapply Slots_sub; [exact (xi_slots _ G)|reflexivity| | | | |]; cbn [tbuf donew mailbox wakeups].
       + intros x. rewrite !held_cnt. cbn [pending runningw donew tbuf]. lia.
       + exact (so_tbuf _ (xi_slots _ G)).
